@@ -18,7 +18,7 @@
    disabled/absent @defer cover them).
    [rev = false]: no collection visited a named fragment as deferred and later again as non-deferred (the only
    case in which collect_fields deliberately collects a fragment twice). *)
-From GV Require Import Base.Prelude Exec.Value Exec.Schema Exec.Spec Incr.DeferExec Incr.DeferExecProps.
+From GV Require Import Base.Prelude Exec.Value Exec.Schema Exec.Spec Incr.DeferExec Incr.DeferExecProps Incr.DeferExecErr Incr.DeferExecRev Incr.DeferExecNp.
 From GV Require Incr.Plan Incr.Merge.
 From Coq Require Import Permutation.
 
@@ -46,6 +46,21 @@ Proof.
 Qed.
 Print Assumptions C04_defer_base_executor_is_erased_spec.
 
+(* [rev] exactly: some selection-set collection met a named fragment through a non-deferred spread after it had
+   collected it through a deferred spread (collect_fields.py then collects the fragment a second time).  Static
+   sufficient condition: no fragment name is spread both with an active @defer and without one anywhere in the
+   document (under the coerced variables) - then the tie to Exec/Spec.v needs no side condition *)
+Theorem C04_defer_no_mixed_spreads_base_is_erased_spec : forall s d vars root j es cs pl rv,
+  (forall cv, coerce_variable_values s (d_vars d) vars = Some cv -> no_mixed_spreads cv d = true) ->
+  dexecute_plain s d vars root = DResp j es cs pl rv ->
+  rv = false /\ pl = [] /\ execute s (erase_defer d) vars root = Resp j es cs.
+Proof.
+  intros s d vars root j es cs pl rv Hnm H.
+  pose proof (no_mixed_rev_false _ _ _ _ _ _ _ _ _ _ Hnm H) as ->.
+  destruct (C04_defer_base_executor_is_erased_spec _ _ _ _ _ _ _ _ H) as [-> Hx]. auto.
+Qed.
+Print Assumptions C04_defer_no_mixed_spreads_base_is_erased_spec.
+
 (* both together: the reference is Spec.execute of the erased document *)
 Theorem C04_defer_reassembles_to_erased_spec_partial : forall s d vars root j cs pl,
   dexecute_plain s d vars root = DResp j [] cs pl false ->
@@ -61,6 +76,70 @@ Proof.
   - eapply C04_defer_reassembly_partial. exact H.
 Qed.
 Print Assumptions C04_defer_reassembles_to_erased_spec_partial.
+
+(* "... or error propagation is disabled for the operation": with @experimental_disableErrorPropagation (np mode)
+   the incremental run reassembles to the base executor's data for EVERY request, field errors included - no
+   execution group can fail, every value carries data; in the model's order and in every order the merge accepts *)
+Theorem C04_defer_propagation_disabled_reassembly_partial : forall s d vars root j es cs pl rv,
+  dexecute_np s d vars root = DResp j es cs pl rv ->
+  exists j0 es0 cs0 pls rv0,
+    dexecute_np_incremental s d vars root = DResp j0 es0 cs0 pls rv0 /\
+    Forall pl_dok pls /\
+    (exists m, reassemble j0 pls = Some m /\ jeq m j) /\
+    (forall pls' m', Permutation pls pls' -> reassemble j0 pls' = Some m' -> jeq m' j).
+Proof. intros s d vars root j es cs pl rv. apply np_reassembly_fuel. Qed.
+Print Assumptions C04_defer_propagation_disabled_reassembly_partial.
+
+(* ERROR CLAUSE ("When errors do propagate, the assembled data is that non-propagating reference with some
+   subtrees replaced by null and some whole deferred fragments withheld, each withheld one being reported as
+   completed with errors").  For ANY request - field errors, propagation, failed execution groups included:
+   [raw] = all execution group values of the incremental run, [jn] = the data of the same request on the
+   base executor with error propagation disabled (dexecute_np, = @experimental_disableErrorPropagation).
+   Whatever sub-multiset L of the values is applied, in whatever order the merge oracle accepts, the result m
+   is jn with (expl)
+     - subtrees replaced by null only where an error of the initial result or of an APPLIED value is reported
+       at or below that position (PErr), and
+     - object keys missing only if they belong to an execution group at that position that FAILED or was
+       not applied (PWh); lists keep their length, nothing else differs;
+   and every error of the reference (esn) is reported at the same path - by the initial result or an applied
+   value - or its position is not delivered in m (hidden: a null or a withheld key on the way).
+   _partial: @stream / asynchronous schedules are outside the model, and that the delivered values can always
+   be merged (reassemble <> None) is assumed here (checked on every run by harness/cdefer.py). *)
+Theorem C04_defer_error_clause_partial : forall s d vars root j0 es0 cs0 raw rv jn esn csn pln rvn,
+  dexecute_raw s d vars root = DResp j0 es0 cs0 raw rv ->
+  dexecute_np s d vars root = DResp jn esn csn pln rvn ->
+  forall L m, SubPerm (map core L) (map core raw) -> reassemble j0 L = Some m ->
+    expl (PErr es0 raw (map core L)) (PWh raw (map core L)) m jn /\
+    (forall e, In e esn ->
+       PErr es0 raw (map core L) (fst e) \/ hidden (PWh raw (map core L)) (fst e) m).
+Proof.
+  intros s d vars root j0 es0 cs0 raw rv jn esn csn pln rvn HD HN L m Hsp Hr.
+  destruct (err_clause_fuel _ _ _ _ _ _ _ _ _ _ _ _ _ _ _ HD HN) as [Hany Hacc].
+  rewrite reassemble_apply_pls, apply_pls_core in Hr. split; [exact (Hany _ _ Hsp Hr)|exact (Hacc _ _ Hsp Hr)].
+Qed.
+Print Assumptions C04_defer_error_clause_partial.
+
+(* ... instantiated with what is delivered: the incremental response is [raw] filtered by the delivery rule
+   (a value is withheld iff it has data and every delivery group it belongs to has a failed group on its
+   chain), so a missing key belongs to an execution group that failed or was withheld by that rule *)
+Theorem C04_defer_delivered_error_clause_partial : forall s d vars root j0 es0 cs0 raw rv jn esn csn pln rvn,
+  dexecute_raw s d vars root = DResp j0 es0 cs0 raw rv ->
+  dexecute_np s d vars root = DResp jn esn csn pln rvn ->
+  dexecute s d vars root = DResp j0 es0 cs0 (deliver raw) rv /\
+  (forall p, In p raw -> ~ In (core p) (map core (deliver raw)) -> delivered_pl (failed_keys raw) p = false) /\
+  (forall m, reassemble j0 (deliver raw) = Some m ->
+     expl (PErr es0 raw (map core (deliver raw))) (PWh raw (map core (deliver raw))) m jn /\
+     (forall e, In e esn ->
+        PErr es0 raw (map core (deliver raw)) (fst e) \/ hidden (PWh raw (map core (deliver raw))) (fst e) m)).
+Proof.
+  intros s d vars root j0 es0 cs0 raw rv jn esn csn pln rvn HD HN. split; [|split].
+  - unfold dexecute. rewrite dexecute_fuel_raw. unfold dexecute_raw in HD. rewrite HD. reflexivity.
+  - intros p Hp Hn. destruct (delivered_pl (failed_keys raw) p) eqn:E; [|reflexivity]. exfalso. apply Hn.
+    apply in_map. unfold deliver. apply filter_In. split; assumption.
+  - intros m Hr. eapply C04_defer_error_clause_partial; try eassumption.
+    apply SubPerm_map. apply filter_SubPerm.
+Qed.
+Print Assumptions C04_defer_delivered_error_clause_partial.
 
 (* `if: false` (literal or by variable): when every @defer is disabled the incremental executor answers
    like the specification's algorithm on the erased document and delivers no payload - errors included *)
@@ -154,4 +233,31 @@ Proof.
   split.
   - eexists _, _. vm_compute. reflexivity.
   - eexists _, _, _, _. split; [vm_compute; reflexivity|]. repeat split; vm_compute; reflexivity.
+Qed.
+
+(* ---- the error clause is not vacuous: a deferred fragment with a null in a non-null field fails; its key
+   is withheld, the reference (propagation disabled) has it as null with the error ---- *)
+Module ExErr.
+  Definition sch : schema := mkSchema
+    [(Ex.Q, TObject [mkField Ex.sa (TNamed Ex.Obj) []] []);
+     (Ex.Obj, TObject [mkField Ex.sx (TNamed n_Int) []; mkField Ex.sy (TNonNull (TNamed n_Int)) []] [])]
+    Ex.Q None.
+  Definition root := DObj Ex.Q [(Ex.sa, DObj Ex.Obj [(Ex.sx, DLeaf (LInt 1)); (Ex.sy, DNull)])].
+  (* { a { x ... @defer(label: "A") { y } } } *)
+  Definition doc := mkDoc OpQuery [] [Ex.fld Ex.sa [Ex.fld Ex.sx []; Ex.dfr [65] [Ex.fld Ex.sy []]]] [].
+End ExErr.
+
+Example C04_defer_error_example :
+  exists p,
+    dexecute_raw ExErr.sch ExErr.doc [] ExErr.root
+      = DResp (JObj [(Ex.sa, JObj [(Ex.sx, JInt 1)])]) [] [([PKey Ex.sa], Ex.sa, []); ([PKey Ex.sa; PKey Ex.sx], Ex.sx, [])] [p] false /\
+    pl_path p = [PKey Ex.sa] /\ pl_data p = None /\ pl_keys p = [Ex.sy] /\
+    pl_errs p = [([PKey Ex.sy], CauseNull)] /\
+    deliver [p] = [p] /\
+    reassemble (JObj [(Ex.sa, JObj [(Ex.sx, JInt 1)])]) [p] = Some (JObj [(Ex.sa, JObj [(Ex.sx, JInt 1)])]) /\
+    exists cs, dexecute_np ExErr.sch ExErr.doc [] ExErr.root
+      = DResp (JObj [(Ex.sa, JObj [(Ex.sx, JInt 1); (Ex.sy, JNull)])]) [([PKey Ex.sa; PKey Ex.sy], CauseNull)] cs [] false.
+Proof.
+  eexists. split; [vm_compute; reflexivity|]. repeat split; try (vm_compute; reflexivity).
+  eexists. vm_compute. reflexivity.
 Qed.
